@@ -347,7 +347,7 @@ def classify_crash(stderr_text, rc):
         kind = "exit%s" % rc
     func = "?"
     for line in stderr_text.splitlines():
-        m = re.match(r"\s*#\d+ 0x[0-9a-f]+ in (\w+) /repo/htp/", line)
+        m = re.match(r"\s*#\d+ 0x[0-9a-f]+ in (\w+) \S*/htp/[\w/]+\.c", line)
         if m:
             func = m.group(1)
             break
@@ -454,7 +454,12 @@ def gate_and_minimise(exe, prop, v, outdir):
     return ("ok", plan, oracle, a["detail"])
 
 
+MUTANT_RUN = os.path.realpath(REPO) != "/repo"   # checks pointed at a scratch tree (seeded changes) never touch the real evidence
+
+
 def write_evidence(prop, tier, seed, level, coverage, wall, violations):
+    if MUTANT_RUN:
+        return
     os.makedirs(os.path.join(VERIF, "evidence"), exist_ok=True)
     ev = {"property_id": prop, "tier": tier, "seed": seed, "level": level, "coverage": coverage, "assumptions": ASSUMPTIONS, "wall_s": round(wall, 3), "violations": violations}
     p = os.path.join(VERIF, "evidence", prop + ".json")
@@ -496,7 +501,7 @@ def check_property(prop, tier, seed, replay=None):
             return 2
     budget = float(os.environ.get("VERIF_BUDGET_S", spec.get("budget", {}).get(tier, 45 if tier == "quick" else 600)))
     workers = int(os.environ.get("VERIF_WORKERS", 14))
-    outdir = os.path.join(OUT, prop)
+    outdir = os.path.join(OUT, prop + ("-mut-" + os.path.basename(os.path.realpath(REPO)) if MUTANT_RUN else ""))
     shutil.rmtree(outdir, ignore_errors=True)
     os.makedirs(outdir)
     print("VERIF_SEED=%d property=%s tier=%s budget=%.0fs workers=%d exe=%s" % (seed, prop, tier, budget, workers, os.path.basename(exe)))
